@@ -262,10 +262,59 @@ def stepTLS (cfg : Cfg) (tls : Bool) (h : Headers) : Headers :=
   else if tls then put (canonicalKey cfg.tlsHeader) [cfg.tlsHeaderValue] h
   else del (canonicalKey cfg.tlsHeader) h
 
-/-- `addHeaders(r, cfg, stripPath)` given the already split peer address, statement by statement. -/
-def addHeadersIP (cfg : Cfg) (strip : Str) (r : Req) (ip : Str) : Headers :=
+/-! ### the `Connection` header (tokens, `protectManagedHeaders`) -/
+
+def connection : Str := "Connection".toList
+
+def isBlank (c : Char) : Bool := c == ' ' || c == '\t'
+def trimBlanks (s : Str) : Str := ((s.dropWhile isBlank).reverse.dropWhile isBlank).reverse
+
+/-- `strings.Split(s, ",")` -/
+def splitComma : Str → List Str
+  | [] => [[]]
+  | c :: cs =>
+    match splitComma cs with
+    | [] => [[c]]      -- unreachable: splitComma never returns []
+    | t :: ts => if c == ',' then [] :: t :: ts else (c :: t) :: ts
+
+/-- `strings.Join(toks, ",")` -/
+def joinComma : List Str → Str
+  | [] => []
+  | [x] => x
+  | x :: y :: t => x ++ ',' :: joinComma (y :: t)
+
+/-- The header a `Connection` token names, as `httputil.ReverseProxy` and `protectManagedHeaders` both read
+it: `http.CanonicalHeaderKey(textproto.TrimString(tok))`. -/
+def tokenKey (tok : Str) : Str := canonicalKey (trimBlanks tok)
+
+/-- The canonical names of the headers `addHeaders` maintains: the `managedHeaders` list plus the configured
+client-IP, TLS and request-id header names. -/
+def managedKeys (cfg : Cfg) : List Str :=
+  [forwarded, xForwardedFor, xForwardedHost, xForwardedPort, xForwardedPrefix, xForwardedProto, xRealIp] ++
+  ([cfg.clientIPHeader, cfg.tlsHeader, cfg.requestID].filter (fun n => !n.isEmpty)).map canonicalKey
+
+/-- One `Connection` value with the tokens naming a managed header removed (`none`: nothing is left). -/
+def keepTokens (cfg : Cfg) (v : Str) : Option Str :=
+  let toks := (splitComma v).filter (fun t => !(managedKeys cfg).contains (tokenKey t))
+  if toks.isEmpty then none else some (joinComma toks)
+
+/-- `protectManagedHeaders(r, cfg)` (repair of D12d): the client's `Connection` header no longer names a
+header fabio maintains; every other token is kept as written; the header goes when nothing is left. -/
+def stepConnection (cfg : Cfg) (h : Headers) : Headers :=
+  match vals connection h with
+  | none => h
+  | some conn =>
+    let keep := conn.filterMap (keepTokens cfg)
+    if keep.isEmpty then del connection h else put connection keep h
+
+/-- `addHeaders` up to and including the TLS header. -/
+def addHeadersCore (cfg : Cfg) (strip : Str) (r : Req) (ip : Str) : Headers :=
   stepTLS cfg r.tls.isSome
     (stepForward cfg strip r ip (stepWS ip (stepRealIp ip (stepClientIP cfg ip r.headers))))
+
+/-- `addHeaders(r, cfg, stripPath)` given the already split peer address, statement by statement. -/
+def addHeadersIP (cfg : Cfg) (strip : Str) (r : Req) (ip : Str) : Headers :=
+  stepConnection cfg (addHeadersCore cfg strip r ip)
 
 /-- `addHeaders`: `none` is the error return ("cannot parse <RemoteAddr>"). -/
 def addHeaders (cfg : Cfg) (strip : Str) (r : Req) : Option Headers :=
@@ -318,23 +367,10 @@ far as the headers of this property are concerned: it appends the peer to X-Forw
 block as `xffAppend` (when `RemoteAddr` splits — it did, or `addHeaders` would have failed). -/
 def reverseProxyXFF (ip : Str) (h : Headers) : Headers := xffAppend ip h
 
-def connection : Str := "Connection".toList
-
-def isBlank (c : Char) : Bool := c == ' ' || c == '\t'
-def trimBlanks (s : Str) : Str := ((s.dropWhile isBlank).reverse.dropWhile isBlank).reverse
-
-/-- `strings.Split(s, ",")` -/
-def splitComma : Str → List Str
-  | [] => [[]]
-  | c :: cs =>
-    match splitComma cs with
-    | [] => [[c]]      -- unreachable: splitComma never returns []
-    | t :: ts => if c == ',' then [] :: t :: ts else (c :: t) :: ts
-
 /-- The header names a request declares hop-by-hop in its `Connection` header(s). -/
 def hopByHopNames (h : Headers) : List Str :=
   ((vals connection h).getD []).flatMap fun v =>
-    ((splitComma v).map trimBlanks).filterMap fun t => if t.isEmpty then none else some (canonicalKey t)
+    (splitComma v).filterMap fun t => if (trimBlanks t).isEmpty then none else some (tokenKey t)
 
 /-- `removeHopByHopHeaders`, the part driven by the client: every header named in `Connection` is deleted
 (the fixed list Connection/Keep-Alive/Proxy-*/Te/Trailer/Transfer-Encoding/Upgrade is not modelled: none of
@@ -343,8 +379,9 @@ def removeHopByHop (h : Headers) : Headers := (hopByHopNames h).foldl (fun acc k
 
 /-- What `httputil.ReverseProxy` does to the headers of this property (assumed, exercised by the
 integration streams): client-declared hop-by-hop headers are removed, **then** the peer is appended to
-X-Forwarded-For. The first step is a hole in the property (finding D12d): a client that sends
-`Connection: X-Tls, X-Client-Ip` makes the proxy drop the headers fabio has just set. -/
+X-Forwarded-For. Before the repair of D12d the first step was a hole in the property: a client that sent
+`Connection: X-Tls, X-Client-Ip` made the proxy drop the headers fabio had just set; `stepConnection` now
+removes those names from the Connection header first. -/
 def reverseProxy (ip : Str) (h : Headers) : Headers := xffAppend ip (removeHopByHop h)
 
 /-- Last element of a comma separated list with leading blanks removed (how an upstream reads the nearest
